@@ -10,7 +10,7 @@ import (
 func init() { register("C14", checkC14) }
 
 func checkC14(r *Run) {
-	r.Explain = "Decides the fan-out and failure-containment shape: FANOUT in multiLevelWriter.Write/WriteLevel the loop over the destinations has no exit other than exhaustion, every iteration calls the destination exactly once with the function's own (loop-invariant) level and byte-slice parameters, and the accumulated error follows 'first failure wins' as a per-iteration path table (unchanged once set; set to the destination's error, or to io.ErrShortWrite when the count differs from len(p)); FILTER FilteredLevelWriter.WriteLevel forwards exactly under level >= w.Level and otherwise reports len(p), nil; ERRH in (*Event).msg the error handed to ErrorHandler / the stderr fallback is the one returned by write(), which is the writer's; exactly one of the two runs, once, only when err != nil, and nothing on that arm panics, exits or runs a callback (the Panic/Fatal completion callback does not return) before the error is reported; the event is recycled whatever the writer returned (A13c). MultiLevelWriter() returns its wrapper for any number of destinations. WCOUNT (both builds) every writer type of the module reports, on each return of its effective write method (WriteLevel, else Write) that can carry a nil error, len(p) of the slice it was given or the count of a Write/WriteLevel it handed that slice to — a module destination that counts something else (bytes sent to its own output, the length of a transcoded copy) turns every healthy event into io.ErrShortWrite under MultiLevelWriter. A13d (shared with C06/C15/C16): a module destination never puts a pooled buffer back holding a rejected event's text, so the event after a failed one is complete and unaffected."
+	r.Explain = "Decides the fan-out and failure-containment shape: FANOUT in multiLevelWriter.Write/WriteLevel the loop over the destinations has no exit other than exhaustion, every iteration calls the destination exactly once with the function's own (loop-invariant) level and byte-slice parameters, and the accumulated error follows 'first failure wins' as a per-iteration path table (unchanged once set; set to the destination's error, or to io.ErrShortWrite when the count differs from len(p)); FILTER FilteredLevelWriter.WriteLevel forwards exactly under level >= w.Level and otherwise reports len(p), nil; ERRH in (*Event).msg the error handed to ErrorHandler / the stderr fallback is the one returned by write(), which is the writer's; exactly one of the two runs, once, only when err != nil, and nothing on that arm panics, exits or runs a callback (the Panic/Fatal completion callback does not return) before the error is reported; the event is recycled whatever the writer returned (A13c). MultiLevelWriter() returns its wrapper for any number of destinations. WCOUNT (both builds) every writer type of the module reports, on each return of its effective write method (WriteLevel, else Write) that can carry a nil error, len(p) of the slice it was given or the count of a Write/WriteLevel it handed that slice to — a module destination that counts something else (bytes sent to its own output, the length of a transcoded copy) turns every healthy event into io.ErrShortWrite under MultiLevelWriter. A13d (shared with C06/C15/C16): a module destination never puts a pooled buffer back holding a rejected event's text, so the event after a failed one is complete and unaffected. FANOUT keeps-its-writer: New stores the writer it was given. COPY (C10's rule): a diode destination copies p on every path."
 	r.NotDec = "Behaviour of the destinations themselves; byte identity across destinations follows from the single loop-invariant operand p (stated, not separately checked)."
 	r.Assume = []string{"destinations do not retain or modify p (io.Writer contract)"}
 	p := r.Use("J")
